@@ -33,6 +33,7 @@ type specEnv struct {
 	wit      map[string]*SExpr
 	witParam map[string]string
 	presite  string
+	witEnv   *specEnv // where call-site witnesses are evaluated (the caller), nil: this environment
 	fns      map[string]func(arg *Term) *Term
 	fnRes    map[string]types.Type
 }
@@ -443,6 +444,20 @@ func (se *specEnv) field(x SVal, name string, e *SExpr) SVal {
 		sfail("field access on untyped value in %s", e)
 	}
 	t := f.subst(x.T)
+	if lv, isLoc := x.V.(LocVal); isLoc {
+		if p, ok := t.Underlying().(*types.Pointer); ok {
+			if st, ok := p.Elem().Underlying().(*types.Struct); ok {
+				si := f.structInfo(p.Elem())
+				i := si.FieldIndex(name)
+				if i < 0 {
+					sfail("no field %s in %s (%s)", name, p.Elem(), e)
+				}
+				fl := lv.extend(pathElem{field: i, cont: p.Elem()}, st.Field(i).Type())
+				return SVal{f.load(se.cur, fl), st.Field(i).Type()}
+			}
+		}
+		sfail("field access through an interior pointer to a non-struct in %s", e)
+	}
 	if p, ok := t.Underlying().(*types.Pointer); ok {
 		st, ok := p.Elem().Underlying().(*types.Struct)
 		if !ok {
@@ -565,6 +580,22 @@ func (se *specEnv) call(e *SExpr) SVal {
 			v = SlcBase(v)
 		}
 		return SVal{Ge(v, se.old.alloc), tb}
+	case "own":
+		x := se.eval(e.Args[0])
+		v := f.asTerm(x.V)
+		if v.S == SSlc {
+			v = SlcBase(v)
+		}
+		if !f.top().trackOwn {
+			return SVal{Or(Eq(v, IntLit(0)), f.isFresh(v)), tb}
+		}
+		return SVal{Or(Eq(v, IntLit(0)), f.isOwn(se.cur, v)), tb}
+	case "copyrel":
+		x, y := se.eval(e.Args[0]), se.eval(e.Args[1])
+		if x.T == nil {
+			sfail("copyrel needs typed arguments in %s", e)
+		}
+		return SVal{f.copyRel(x.T, f.asTerm(x.V), f.asTerm(y.V), f.top().entry, se.cur, false, 1), tb}
 	case "allocated":
 		x := se.eval(e.Args[0])
 		v := f.asTerm(x.V)
@@ -603,7 +634,9 @@ func (se *specEnv) call(e *SExpr) SVal {
 		for _, a := range e.Args[2:] {
 			args = append(args, se.term(a))
 		}
-		if site == "pre" && se.presite != "" {
+		if site == "pre" && se.f.presiteName != "" {
+			site = se.f.presiteName
+		} else if site == "pre" && se.presite != "" {
 			site = se.presite
 		}
 		for _, sk := range f.ctx.skolems[label] {
@@ -712,6 +745,23 @@ func (se *specEnv) resolveType(text string) types.Type {
 					if tp, ok := n.TypeArgs().At(i).(*types.TypeParam); ok && tp.Obj().Name() == text {
 						return f.subst(tp)
 					}
+				}
+			}
+		}
+	}
+	for _, sv := range se.vars {
+		if sv.T == nil {
+			continue
+		}
+		vt := f.subst(sv.T)
+		if p, ok := vt.Underlying().(*types.Pointer); ok {
+			vt = p.Elem()
+		}
+		if n, ok := types.Unalias(vt).(*types.Named); ok && n.TypeArgs() != nil && n.Origin().TypeParams() != nil {
+			tps := n.Origin().TypeParams()
+			for i := 0; i < tps.Len() && i < n.TypeArgs().Len(); i++ {
+				if tps.At(i).Obj().Name() == text {
+					return n.TypeArgs().At(i)
 				}
 			}
 		}
@@ -874,9 +924,7 @@ func (se *specEnv) existsFn(e *SExpr) SVal {
 		sorts = append(sorts, as)
 		quantCounter++
 		name := f.ctx.declFun(fmt.Sprintf("sk!%s!%s!%d", e.Name, se.site, quantCounter), sorts, rs)
-		if len(se.binders) == 0 {
-			f.ctx.skolems[e.Name] = append(f.ctx.skolems[e.Name], &skolemFn{name: name, sorts: []Sort{as}, res: rs, site: se.site})
-		}
+		f.ctx.skolems[e.Name] = append(f.ctx.skolems[e.Name], &skolemFn{name: name, sorts: sorts, res: rs, site: se.site})
 		n := se.fork()
 		outer := append([]*Term{}, se.binders...)
 		bind(n, func(a *Term) *Term { return App(name, rs, append(append([]*Term{}, outer...), a)...) })
@@ -890,6 +938,9 @@ func (se *specEnv) existsFn(e *SExpr) SVal {
 			}
 			n := se.fork()
 			outerSe := se
+			if se.witEnv != nil {
+				outerSe = se.witEnv
+			}
 			bind(n, func(a *Term) *Term {
 				w := outerSe.fork()
 				w.vars[pname] = SVal{a, at}
